@@ -25,6 +25,7 @@ type member struct {
 	Snap  int    `json:"snap"`
 	CidOk bool   `json:"cidOk"`
 	SigOk bool   `json:"sigOk"`
+	Tw    int    `json:"tw"` // != 0: carries the signed payload of change Tw, without a signature field
 }
 
 // batch descriptor of the specification (TreeAuth.Descs)
@@ -32,6 +33,7 @@ type desc struct {
 	Nf    int    `json:"nf"`
 	Pos   int    `json:"pos"`
 	After string `json:"after"`
+	Fa    string `json:"fa"`
 	Fc    int    `json:"fc"`
 	Au    string `json:"au"`
 	Cite  int    `json:"cite"`
@@ -40,7 +42,7 @@ type desc struct {
 }
 
 func (d desc) String() string {
-	return fmt.Sprintf("nf=%d pos=%d after=%s fc=%d au=%s cite=%d pk=%s m=%s", d.Nf, d.Pos, d.After, d.Fc, d.Au, d.Cite, d.Pk, d.M)
+	return fmt.Sprintf("nf=%d pos=%d after=%s fa=%s fc=%d au=%s cite=%d pk=%s m=%s", d.Nf, d.Pos, d.After, d.Fa, d.Fc, d.Au, d.Cite, d.Pk, d.M)
 }
 
 const unknownModelId = 99
@@ -64,6 +66,23 @@ func (t *treeWorld) renderPlain(c member) *treechangeproto.RawTreeChangeWithId {
 		prev = append(prev, t.realId(p))
 	}
 	return t.buildChange(c.Au, t.aw.recId(c.Cite), prev, t.realId(c.Snap), false)
+}
+
+// twinOf builds the signature-less twin of a genuine raw change: exactly the same signed payload
+// bytes, the signature field absent on the wire (sub even) or present but empty (sub odd), the id
+// re-computed from the new bytes.
+func twinOf(genuine *treechangeproto.RawTreeChangeWithId, sub int) (*treechangeproto.RawTreeChangeWithId, string) {
+	outer := &treechangeproto.RawTreeChange{}
+	if err := outer.UnmarshalVT(genuine.RawChange); err != nil {
+		broken("twin: %v", err)
+	}
+	b := joinRaw(outer.Payload, nil)
+	what := "signed payload of " + genuine.Id + " with the signature field absent"
+	if sub%2 == 1 {
+		b = append(b, 0x12, 0x00)
+		what = "signed payload of " + genuine.Id + " with an empty signature field"
+	}
+	return &treechangeproto.RawTreeChangeWithId{RawChange: b, Id: reid(b)}, what + ", id recomputed"
 }
 
 func reid(raw []byte) string {
